@@ -101,6 +101,13 @@ Definition add_type (tm : typemap) (name : str) (d : godecl) : res (gotype * typ
   | None => Ok (decl_type name d, (name, d) :: tm)
   end.
 
+(* addFragmentType: the types of a named fragment never replace a type that has the name *)
+Definition add_fragment_type (tm : typemap) (name : str) (d : godecl) : res typemap :=
+  match assoc name tm with
+  | Some _ => Err ECONFLICT
+  | None => Ok ((name, d) :: tm)
+  end.
+
 Fixpoint mfold {A B} (f : B -> A -> res B) (l : list A) (acc : B) : res B :=
   match l with
   | [] => Ok acc
@@ -345,8 +352,10 @@ Section Conv.
                            | Some ft =>
                                if negb (fragment_matches containing ft) then Ok (done, tmx)
                                else
-                                 do (g, tmy) <- match assoc name tmx with
-                                                | Some d => Ok (decl_type name d, tmx)
+                                 (* the fragment's type is looked up through the usual conflict check *)
+                                 do e <- get_type tmx name (fr_on fr) (fr_sel fr);
+                                 do (g, tmy) <- match e with
+                                                | Some t => Ok (t, tmx)
                                                 | None => convert_named_fragment f fr tmx
                                                 end;
                                  let g' := match g, td_kind containing with
@@ -399,16 +408,17 @@ Section Conv.
             | FlatErr =>
                 match td_kind typ with
                 | KObject =>
-                    Ok (GStruct (fr_name fr), tm_set tm1 (fr_name fr) (DStruct (td_name typ) fields (fr_sel fr) false))
+                    do tm2 <- add_fragment_type tm1 (fr_name fr) (DStruct (td_name typ) fields (fr_sel fr) false);
+                    Ok (GStruct (fr_name fr), tm2)
                 | KInterface | KUnion =>
                     let impls := possible_types typ in
                     let inames := map (fun i => fr_name fr ++ upper_first (td_name i)) impls in
-                    let tm2 := tm_set tm1 (fr_name fr) (DIface (td_name typ) fields inames (fr_sel fr)) in
+                    do tm2 <- add_fragment_type tm1 (fr_name fr) (DIface (td_name typ) fields inames (fr_sel fr));
                     do tm3 <-
                       mfold (fun (tmx : typemap) (idef : typedef) =>
                                do (ifields, tmy) <- convert_selection_set f (fr_src fr) [fr_name fr] (fr_sel fr) idef D tmx;
-                               Ok (tm_set tmy (fr_name fr ++ upper_first (td_name idef))
-                                          (DStruct (td_name idef) ifields (fr_sel fr) false)))
+                               add_fragment_type tmy (fr_name fr ++ upper_first (td_name idef))
+                                                 (DStruct (td_name idef) ifields (fr_sel fr) false))
                             impls tm2;
                     Ok (GIface (fr_name fr), tm3)
                 | _ => Err (b "invalid-fragment-type")
